@@ -355,7 +355,15 @@ def run(tier, seed):
         else:
             base_fs[tuple(t[1])] = out
     evs = events()
-    res = pool.run_tasks("checks.c13:hist_task", [(i, depth, base_parse, base_fs) for i in range(len(evs))])
+    # thorough: histories of 4 events start with an event on the shared parser P1 (scripts of the original pool) or on F1; every other first
+    # event is followed to 3 events (the full product of 4 took an hour for ~75 events)
+    def dep(i):
+        if depth < 4:
+            return depth
+        e = evs[i]
+        return 4 if (e[1] == "P1" and e[2] < 12) or e[1] == "F1" else 3
+
+    res = pool.run_tasks("checks.c13:hist_task", [(i, dep(i), base_parse, base_fs) for i in range(len(evs))])
     res += pool.run_tasks("checks.c13:rep_task", [(fi, 10 if tier == "quick" else 14, base_parse) for fi in REP_FAIL])
     n = sum(r["n"] for r in res)
     viols = []
